@@ -84,9 +84,15 @@ def run_shard(spec, seed, tier, stats):
     if k == 'range':
         from bridge_env.score import point_difference_to_imps as f
         prev = None
-        for d in range(spec['lo'], spec['hi'] + 1):
+        for d in list(range(spec['lo'], spec['hi'] + 1)) + ([None] + list(range(spec['hi'], spec['lo'] - 1, -7)) if spec.get('again', True) else []):
+            if d is None:        # second, descending strided pass over the same range: answers must not depend on earlier calls
+                prev = None
+                stats = None
+                continue
             try:
                 got = _one(d, stats)
+                if stats is None:
+                    continue
                 if prev is not None and prev > got:
                     raise Violation('not monotone', {'lo': d - 1, 'hi': d}, {'f(lo)': prev, 'f(hi)': got})
                 prev = got
@@ -97,8 +103,11 @@ def run_shard(spec, seed, tier, stats):
     if k == 'big':
         v = run_hypothesis(lambda d: _one(d, stats), {'d': st.one_of(SCORES, NEAR)}, seed, spec['n'], tier == 'thorough')
     elif k == 'pairs':
-        v = run_hypothesis(lambda a, b: _pair(a, b, stats), {'a': st.one_of(SCORES, NEAR), 'b': st.one_of(SCORES, NEAR, st.just(0))},
-                           seed, spec['n'], tier == 'thorough')
+        # pairs: independent, equal (a, a), opposite (a, -a) and near-opposite scores
+        pair = st.one_of(st.tuples(st.one_of(SCORES, NEAR), st.one_of(SCORES, NEAR, st.just(0))),
+                         st.one_of(SCORES, NEAR).map(lambda a: (a, a)), st.one_of(SCORES, NEAR).map(lambda a: (a, -a)),
+                         st.tuples(SCORES, st.integers(-30, 30)).map(lambda t: (t[0], t[1] - t[0])))
+        v = run_hypothesis(lambda ab: _pair(ab[0], ab[1], stats), {'ab': pair}, seed, spec['n'], tier == 'thorough')
     else:
         v = run_hypothesis(lambda a, d: _mono(a, a + d, stats),
                            {'a': st.one_of(SCORES, NEAR), 'd': st.one_of(st.integers(0, 30), st.integers(0, 10 ** 6))},
